@@ -40,6 +40,21 @@ Proof.
     + exact IH.
 Qed.
 
+Lemma find_decl_in_c : forall p (m : list decl) u, find_decl p m = Some u -> In (p, u) m.
+Proof.
+  intros p m u. induction m as [|[q v] m IH]; cbn [find_decl]; intros H; [discriminate|].
+  destruct (name_eqb q p) eqn:E.
+  - injection H as <-. apply name_eqb_eq in E. subst q. left. reflexivity.
+  - right. apply IH. exact H.
+Qed.
+Lemma nearest_in_rows : forall p (rows : list (list decl)) u, nearest rows p = Some u -> exists m, In m rows /\ In (p, u) m.
+Proof.
+  intros p rows u. induction rows as [|m r IH]; cbn [nearest]; intros H; [discriminate|].
+  destruct (find_decl p m) eqn:E.
+  - injection H as <-. exists m. split; [left; reflexivity|]. apply find_decl_in_c. exact E.
+  - destruct (IH H) as (m' & A & B). exists m'. split; [right; exact A|exact B].
+Qed.
+
 Lemma inscope_plain : forall rows q, name_eqb q s_xml = false -> name_eqb q s_xmlns = false ->
   inscope rows q = canon (nearest rows q).
 Proof.
@@ -154,3 +169,66 @@ Qed.
 Lemma doc_lookup_empty : forall roots p u, root_chain roots = [] ->
   doc_lookup_ns roots p = None /\ doc_lookup_prefix roots u = None /\ doc_is_default roots (Some u) = false.
 Proof. intros roots p u H. unfold doc_lookup_ns, doc_lookup_prefix, doc_is_default. rewrite H. repeat split. Qed.
+
+(** lookupPrefix is complete: when some non-reserved prefix is bound to the namespace name in scope, it answers one *)
+Lemma lookup_prefix_attrs_hit : forall orig atts u q a, In a atts ->
+  oname_eqb (ba_ns a) (Some uri_xmlns) = true -> ba_prefix a = Some s_xmlns -> ba_local a = q -> ba_value a = u ->
+  m_lookup_ns orig (Some q) = Some u -> m_lookup_prefix_attrs orig atts u <> None.
+Proof.
+  intros orig atts u q a Hin Hns Hp Hl Hv Hlk. induction atts as [|x r IH]; [destruct Hin|].
+  cbn [m_lookup_prefix_attrs]. destruct Hin as [->|Hin].
+  - rewrite Hns, Hp, Hv, Hl. cbn [oname_eqb]. rewrite !name_eqb_refl. cbn [andb]. rewrite Hlk, name_eqb_refl. discriminate.
+  - destruct (oname_eqb (ba_ns x) (Some uri_xmlns) && oname_eqb (ba_prefix x) (Some s_xmlns) && name_eqb (ba_value x) u).
+    + destruct (m_lookup_ns orig (Some (ba_local x))) as [f|]; [|apply IH; exact Hin].
+      destruct (name_eqb f u); [discriminate|apply IH; exact Hin].
+    + apply IH. exact Hin.
+Qed.
+Lemma lookup_prefix_from_hit : forall orig chain u q e a, In e chain -> In a (be_attrs e) ->
+  oname_eqb (ba_ns a) (Some uri_xmlns) = true -> ba_prefix a = Some s_xmlns -> ba_local a = q -> ba_value a = u ->
+  m_lookup_ns orig (Some q) = Some u -> m_lookup_prefix_from orig chain u <> None.
+Proof.
+  intros orig chain u q e a He Ha Hns Hp Hl Hv Hlk. induction chain as [|x up IH]; [destruct He|].
+  cbn [m_lookup_prefix_from].
+  destruct (match be_ns x, be_prefix x with
+            | Some ens, Some pfx => if name_eqb ens u then match m_lookup_ns orig (Some pfx) with
+                                                          | Some f => if name_eqb f u then Some pfx else None
+                                                          | None => None end else None
+            | _, _ => None end); [discriminate|].
+  destruct He as [->|He].
+  - pose proof (lookup_prefix_attrs_hit orig (be_attrs e) u q a Ha Hns Hp Hl Hv Hlk) as K.
+    destruct (m_lookup_prefix_attrs orig (be_attrs e) u); [discriminate|contradiction].
+  - destruct (m_lookup_prefix_attrs orig (be_attrs x) u); [discriminate|]. apply IH. exact He.
+Qed.
+Lemma belem_decls_in : forall atts q u, Forall parsed_attr atts -> q <> [] -> In (q, u) (belem_decls atts) ->
+  exists a, In a atts /\ oname_eqb (ba_ns a) (Some uri_xmlns) = true /\ ba_prefix a = Some s_xmlns /\ ba_local a = q /\ ba_value a = u.
+Proof.
+  intros atts q u H Hq. induction H as [|a r Ha Hr IH]; cbn [belem_decls]; intros Hin; [destruct Hin|].
+  destruct Ha as (Hns & _ & _ & _). unfold decl_attr in Hns.
+  destruct (oname_eqb (ba_prefix a) (Some s_xmlns)) eqn:E1.
+  - destruct Hin as [E|Hin].
+    + injection E as <- <-. exists a. split; [left; reflexivity|]. cbn [orb] in Hns. split; [exact Hns|].
+      apply oname_eqb_eq in E1. repeat split; assumption.
+    + destruct (IH Hin) as (b & Hb & R). exists b. split; [right; exact Hb|exact R].
+  - destruct (oname_eqb (ba_prefix a) None && name_eqb (ba_local a) s_xmlns).
+    + destruct Hin as [E|Hin]; [injection E as E _; congruence|].
+      destruct (IH Hin) as (b & Hb & R). exists b. split; [right; exact Hb|exact R].
+    + destruct (IH Hin) as (b & Hb & R). exists b. split; [right; exact Hb|exact R].
+Qed.
+Lemma lookup_prefix_complete : forall chain u q, Forall parsed_elem chain -> consistent chain -> u <> [] -> q <> [] ->
+  name_eqb q s_xml = false -> name_eqb q s_xmlns = false -> inscope (chain_rows chain) q = Some u ->
+  m_lookup_prefix chain u <> None.
+Proof.
+  intros chain u q HP HC Hu Hq N1 N2 Hin.
+  assert (Hne : Some q <> Some []) by congruence.
+  pose proof (lookup_ns_inscope chain (Some q) HP HC Hne N1 N2) as L. cbn [qn pfx_or_empty] in L. rewrite Hin in L.
+  assert (Hlk : m_lookup_ns chain (Some q) = Some u).
+  { destruct (m_lookup_ns chain (Some q)) as [[|c l]|]; cbn [canon] in L; try discriminate. exact L. }
+  rewrite (inscope_plain _ _ N1 N2) in Hin.
+  destruct (nearest (chain_rows chain) q) as [v|] eqn:En; [|discriminate].
+  assert (Hv : v = u) by (destruct v; cbn [canon] in Hin; [discriminate|congruence]). subst v.
+  destruct (nearest_in_rows _ _ _ En) as (m & Hm & Hmu).
+  unfold chain_rows in Hm. apply in_map_iff in Hm. destruct Hm as (e & <- & He).
+  rewrite Forall_forall in HP. specialize (HP e He).
+  destruct (belem_decls_in _ q u HP Hq Hmu) as (a & Ha & Hns & Hp & Hl & Hval).
+  unfold m_lookup_prefix. exact (lookup_prefix_from_hit chain chain u q e a He Ha Hns Hp Hl Hval Hlk).
+Qed.
